@@ -17,6 +17,9 @@ pub struct C05;
 #[derive(Debug, Clone)]
 pub enum OpTok {
     Push(Vec<STok>),
+    /// one valid frame whose payload is `len` equal bytes - beyond 2^18, past every capacity threshold a
+    /// growable buffer might treat specially
+    PushHuge(usize, u8),
     Finalize,
     Reset,
 }
@@ -312,9 +315,10 @@ impl Prop for C05 {
         let big = prop::bool::weighted(tier.pick(0.03, 0.05));
         big.prop_flat_map(|big| {
             let op = prop_oneof![
-                6 => stream(5, big).prop_map(OpTok::Push),
-                1 => Just(OpTok::Finalize),
-                1 => Just(OpTok::Reset),
+                1500 => stream(5, big).prop_map(OpTok::Push),
+                250 => Just(OpTok::Finalize),
+                250 => Just(OpTok::Reset),
+                1 => (prop_oneof![Just(262_145usize), Just(300_000usize)], any::<u8>()).prop_map(|(l, b)| OpTok::PushHuge(l, b)),
             ];
             (vec(op, 1..8), prop::option::weighted(0.6, any::<u16>()), moderate_payload(), any::<u16>(), prop::option::weighted(0.25, 0u32..12))
         })
@@ -328,6 +332,7 @@ impl Prop for C05 {
             .iter()
             .map(|o| match o {
                 OpTok::Push(t) => Op::Push(lower_stream(t)),
+                OpTok::PushHuge(l, b) => Op::Push(crate::refmodel::transport::ref_frame(&vec![*b; *l])),
                 OpTok::Finalize => Op::Finalize,
                 OpTok::Reset => Op::Reset,
             })
